@@ -155,6 +155,8 @@ type provOpts struct {
 	// lenOfMake: a freshly made slice depends on its length operand.
 	lenOfMake bool
 	// cells: a load of a local cell captured by closures unions the stores made in the closures too.
+	// env: initial bindings of parameters / free variables to values (context of an inlined call stack).
+	env map[ssa.Value][]ssa.Value
 	// bindStop: do not bind this parameter to its callers' actuals (API boundary).
 	bindStop func(p *ssa.Parameter) bool
 	max      int
@@ -167,6 +169,7 @@ type provCtx struct {
 	p    *Prov
 	n    int
 	env  map[*ssa.Parameter][]ssa.Value // actuals of the calls followed in this query
+	fenv map[*ssa.FreeVar][]ssa.Value
 }
 
 func (w *World) prov(v ssa.Value, o provOpts) *Prov {
@@ -174,6 +177,18 @@ func (w *World) prov(v ssa.Value, o provOpts) *Prov {
 		o.max = 4000
 	}
 	c := &provCtx{w: w, o: o, seen: map[ssa.Value]bool{}, p: &Prov{}}
+	if len(o.env) > 0 {
+		c.env = map[*ssa.Parameter][]ssa.Value{}
+		c.fenv = map[*ssa.FreeVar][]ssa.Value{}
+		for k, vs := range o.env {
+			switch x := k.(type) {
+			case *ssa.Parameter:
+				c.env[x] = vs
+			case *ssa.FreeVar:
+				c.fenv[x] = vs
+			}
+		}
+	}
 	c.visit(v)
 	return c.p
 }
@@ -228,6 +243,12 @@ func (c *provCtx) visit(v ssa.Value) {
 		}
 		c.root(Root{Kind: RParam, Val: x, Param: x})
 	case *ssa.FreeVar:
+		if vs, ok := c.fenv[x]; ok {
+			for _, a := range vs {
+				c.visit(a)
+			}
+			return
+		}
 		// bind to the value captured at MakeClosure
 		fn := x.Parent()
 		idx := -1
